@@ -53,7 +53,7 @@ example : wf reflTy (reflect (C12_S 1)) = true := by decide
 theorem C12_negative_id_counterexample : wf reflTy (reflect (C12_S (-1))) = false := by decide
 
 /-- the class of `C12_lossless`, described on the schema: the record fits reflection.fcp exactly
-when ids are in `u32`, enumerators and positions in `i32`, the version in `u16`, texts 7-bit and
+when ids are in `u32`, enumerators and positions in `i32`, the version in `u16`, texts valid UTF-8 and
 lists shorter than 2^32 (`InReflRange` spells the bounds out declaration by declaration) -/
 theorem C12_in_range_exact (S : RSchema) : wf reflTy (reflect S) = InReflRange S := wf_reflect S
 
@@ -65,7 +65,7 @@ theorem C12_lossless_in_range (R : Schema) (fuel : Nat) (hR : resolve R fuel (.s
   C12_lossless R fuel hR S (by rw [wf_reflect]; exact h)
 
 /-- the type part of the bounds holds for every type the language can write: widths and array
-sizes below 2^32 − 2, 7-bit type names, nesting shallower than 2^32 -/
+sizes below 2^32 − 2, UTF-8 type names, nesting shallower than 2^32 -/
 theorem C12_types_in_range (t : RTy) (h : smallTy t = true) (hd : t.depth + 1 < 2^32) : okTy t = true :=
   okTy_of_small t h hd
 
